@@ -716,7 +716,7 @@ func (in *Interp) callSSA(caller *frame, fn *ssa.Function, args []value, env []v
 	if fn.Blocks == nil {
 		in.unsupported("external function without body: " + name)
 	}
-	if in.depth > 400 {
+	if in.depth > 2000 {
 		in.unsupported("call depth exceeded at " + name)
 	}
 	if strings.HasPrefix(pkgPath, "github.com/aergoio/aergo/v2") {
